@@ -7,5 +7,5 @@ N="$1"
 git -C /repo worktree add -f --detach /tmp/wt_$N HEAD >/dev/null 2>&1
 cp /repo/emg3d/version.py /tmp/wt_$N/emg3d/version.py
 rm -rf /tmp/coq_$N
-cp -r /verif/coq /tmp/coq_$N
+rsync -a --exclude "Corr/*" --exclude ".lock" /verif/coq/ /tmp/coq_$N/ 2>/dev/null || true; mkdir -p /tmp/coq_$N/Corr
 echo "VERIF_REPO=/tmp/wt_$N VERIF_COQ=/tmp/coq_$N"
